@@ -222,6 +222,16 @@ func ZZ_C13_FragmentInContext(sv *zzsv.T) {
 	sv.Observe("prepare", errBad != nil, errOK != nil, p1, p2)
 	sv.Assert("C13.context_is_valid", p2 && errOK == nil)
 	sv.Assert("C13.rejected", p1 && errBad != nil)
+	// rejected for good: asking again does not turn the script into a valid
+	// one, and the evaluator has no program to run
+	if p1 && errBad != nil {
+		var again, rerr error
+		p3 := zzNoPanic(func() {
+			again = bad.Prepare()
+			_, rerr = bad.Execute(nil)
+		})
+		sv.Assert("C13.rejected_again", p3 && again != nil && rerr != nil)
+	}
 }
 
 var zzValidPrograms = []string{
